@@ -19,6 +19,8 @@ RULE = ('a model grid (numbers drawn as literals: sign, digits, fraction, e/E ex
 ASSUMPTIONS = ['well-formedness is defined by DESIGN.md Appendix B; a bare string is legal iff its second character is not ":"',
                'meta/column tags keep their relative order (only the carrier keys ver/name and the top-level keys move)',
                'dict values with all of meta, cols, rows as keys are not generated (indistinguishable from a nested grid)']
+from .c01 import SIZES_RULE  # noqa: E402
+RULE = RULE + SIZES_RULE
 FEATURES = {}
 EXHAUSTIVE_CLAIM = False
 FORMS = ['text', 'text-indent', 'text-unicode', 'bytes:utf-8', 'bytes:utf-16', 'bytes:utf-32', 'obj', 'obj-aliased',
@@ -185,6 +187,7 @@ def plan(tier, seed, excl):
     t = [('table', {'ver': v, 'shard': i, 'of': 2}) for v in ('2.0', '3.0') for i in range(2)]
     t += [('scalars', {'shard': i, 'n': 5000 if q else 60000}) for i in range(4)]
     t += [('docs', {'shard': i, 'n': 1500 if q else 20000}) for i in range(16)]
+    t += [('sizes', {'shard': i, 'of': 8, 'tier': tier}) for i in range(8)]
     return t
 
 
@@ -243,6 +246,14 @@ def run(part, args, env):
                     except Violation as v:
                         acc.violation(v)
         acc.exhaustive['catalogue value x uniform spelling plan x shape table'] = True
+    elif part == 'sizes':
+        from .c01 import sizes_part
+
+        def one(case):
+            n = case['sized'][1]
+            c = dict(case, choices=[n % 6] if n % 2 else [], as_array=not case['single'], form=FORMS[n % len(FORMS)])
+            check_doc(c, acc)
+        sizes_part(acc, args, one)
     elif part == 'scalars':
         strat = st.sampled_from(['2.0', '3.0']).flatmap(lambda v: st.builds(
             lambda m, c: {'kind': 'scalar', 'ver': v, 'value': m, 'choices': c},
